@@ -10,6 +10,7 @@ import (
 	"strings"
 
 	"github.com/gittuf/gittuf/experimental/gittuf"
+	"github.com/gittuf/gittuf/internal/policy"
 	"github.com/gittuf/gittuf/internal/tuf"
 	"github.com/gittuf/gittuf/pkg/rsl"
 	"github.com/gittuf/gittuf/verifsim/core"
@@ -334,6 +335,42 @@ func (d c12) executeAPI(c *core.Case) (res *core.Result) {
 		} else {
 			res.Stat("same_call_by_root_principal_failed:"+muts[pi].name, 1)
 			outcomes = append(outcomes, "root:"+muts[pi].name+":err")
+		}
+	}
+	// Apply on real git (ancestry through gitinterface.KnowsCommit): first the staged
+	// successor as prepared, then a staged state with valid metadata that does not
+	// descend from the applied policy commit.
+	{
+		gi := gr.GetGitRepository()
+		entry(stagingRef, repo.GetRef(stagingRef), 0)
+		if err := policy.Apply(ctx, gi, false); err == nil {
+			res.Stat("probe:api_apply_of_descendant_succeeded", 1)
+			outcomes = append(outcomes, "apply:ok")
+			if repo.GetRef(policyRef) != repo.GetRef(stagingRef) {
+				res.Violate("C12", "apply-wrong-target", "Apply succeeded but refs/gittuf/policy does not equal the staged tip", 0, "engine=git")
+			}
+		} else {
+			res.Stat("api_apply_of_descendant_failed", 1)
+			outcomes = append(outcomes, "apply:err")
+		}
+		polTip := repo.GetRef(policyRef)
+		orphan := repo.CommitTree(repo.TreeOf(polTip), nil, "same metadata, unrelated history")
+		repo.SetRef(stagingRef, orphan)
+		entry(stagingRef, orphan, 0)
+		before := c12RefsDigest(repo)
+		nEntries, _ := world.WalkRSLGit(repo, rsl.Ref)
+		err := policy.Apply(ctx, gi, false)
+		after, _ := world.WalkRSLGit(repo, rsl.Ref)
+		switch {
+		case err == nil:
+			outcomes = append(outcomes, "apply-nondescendant:accepted")
+			res.Violate("C12", "applied-non-descendant", fmt.Sprintf("Apply published staged commit %s, which does not descend from the applied policy commit %s", short10(orphan), short10(polTip)), 0, "engine=git")
+		case c12RefsDigest(repo) != before || len(after) != len(nEntries):
+			outcomes = append(outcomes, "apply-nondescendant:refused-but-changed")
+			res.Violate("C12", "failed-apply-changed-refs", fmt.Sprintf("Apply refused a non-descendant staged state (%v) but references or the log changed", err), 0, "engine=git")
+		default:
+			outcomes = append(outcomes, "apply-nondescendant:refused")
+			res.Stat("probe:api_apply_of_non_descendant_refused", 1)
 		}
 	}
 	res.Digest = core.HashStrings(strings.Join(setup, ","), strings.Join(outcomes, ","), c12RefsDigest(repo))
